@@ -63,7 +63,7 @@ Fixpoint func_eqb (a b : func) {struct a} : bool :=
 Definition err_eqb (a b : err) : bool :=
   match a, b with
   | EEof, EEof | EMagic, EMagic | EVersion, EVersion | EConstTag, EConstTag
-  | ENestedIdx, ENestedIdx | EUtf8, EUtf8 | EUtf8Global, EUtf8Global | EFuel, EFuel => true
+  | ENestedIdx, ENestedIdx | EUtf8, EUtf8 | EUtf8Global, EUtf8Global | EFuel, EFuel | EPtr, EPtr => true
   | ELimit x, ELimit y => x =? y
   | _, _ => false
   end.
